@@ -14,6 +14,7 @@ require (
 	github.com/MichaelMure/git-bug v0.0.0
 	github.com/ProtonMail/go-crypto v1.0.0
 	github.com/anishathalye/porcupine v1.3.0
+	github.com/go-git/go-billy/v5 v5.5.0
 	github.com/gorilla/mux v1.8.1
 )
 
@@ -43,7 +44,6 @@ require (
 	github.com/emirpasic/gods v1.18.1 // indirect
 	github.com/fatih/color v1.17.0 // indirect
 	github.com/go-git/gcfg v1.5.1-0.20230307220236-3a3c6141e376 // indirect
-	github.com/go-git/go-billy/v5 v5.5.0 // indirect
 	github.com/go-git/go-git/v5 v5.12.0 // indirect
 	github.com/godbus/dbus v0.0.0-20190726142602-4481cbc300e2 // indirect
 	github.com/golang/groupcache v0.0.0-20210331224755-41bb18bfe9da // indirect
